@@ -313,6 +313,9 @@ func cmdCheck(args []string) int {
 							if strings.HasPrefix(cand.Label, "implicit: deadlock") {
 								confirmed = true
 							}
+							if strings.HasPrefix(cand.Label, "implicit: data race") && strings.HasPrefix(f, "race:") {
+								confirmed = true
+							}
 						}
 					}
 					detail = fmt.Sprintf("native: ran=%v failed=%v assumeFailed=%v err=%s (%d candidate(s) tried)", res.Ran, res.Failed, res.AssumeFailed, res.Err, ci+1)
@@ -362,7 +365,7 @@ func unexpectedFailures(failed []string, vs []*Violation) bool {
 	for _, f := range failed {
 		ok := false
 		for _, v := range vs {
-			if v.Label == f || strings.HasPrefix(v.Label, "implicit:") && strings.HasPrefix(f, "panic:") || strings.HasPrefix(v.Label, "implicit: deadlock") {
+			if v.Label == f || strings.HasPrefix(v.Label, "implicit:") && strings.HasPrefix(f, "panic:") || strings.HasPrefix(v.Label, "implicit: deadlock") || strings.HasPrefix(v.Label, "implicit: data race") && strings.HasPrefix(f, "race:") {
 				ok = true
 			}
 		}
@@ -396,7 +399,7 @@ type replayResult struct {
 // and runs it on the concrete values of a solver model.
 func nativeReplay(spec *HarnessSpec, dir string, values []uint64, choices []int64, params map[string]int) replayResult {
 	os.MkdirAll(dir, 0755)
-	rp := map[string]interface{}{"values": values, "choices": choices, "params": params, "harness": spec.Name, "pkg": spec.Pkg, "files": spec.Files, "repeat": spec.ReplayRepeat}
+	rp := map[string]interface{}{"values": values, "choices": choices, "params": params, "harness": spec.Name, "pkg": spec.Pkg, "files": spec.Files, "repeat": spec.ReplayRepeat, "race": spec.NativeRace}
 	os.WriteFile(filepath.Join(dir, "replay.json"), mustJSON(rp), 0644)
 	return runReplayDir(dir)
 }
@@ -413,6 +416,7 @@ func runReplayDir(dir string) replayResult {
 		Pkg     string   `json:"pkg"`
 		Files   []string `json:"files"`
 		Repeat  int      `json:"repeat"`
+		Race    bool     `json:"race"`
 	}
 	json.Unmarshal(b, &rp)
 	spec := &HarnessSpec{Name: rp.Harness, Pkg: rp.Pkg, Files: rp.Files}
@@ -445,8 +449,12 @@ func TestVrtReplay(t *testing.T) {
 	os.WriteFile(tp, []byte(test), 0644)
 	repl[filepath.Join("/repo", spec.Pkg, "zz_vrt_replay_test.go")] = tp
 	os.WriteFile(filepath.Join(dir, "overlay.json"), mustJSON(map[string]interface{}{"Replace": repl}), 0644)
-	cmd := exec.Command("go", "test", "-vet=off", "-count=1", "-tags", "verif", "-overlay", filepath.Join(dir, "overlay.json"),
-		"-run", "^TestVrtReplay$", "-timeout", "120s", "-v", "./"+spec.Pkg)
+	args := []string{"test", "-vet=off", "-count=1", "-tags", "verif", "-overlay", filepath.Join(dir, "overlay.json"),
+		"-run", "^TestVrtReplay$", "-timeout", "120s", "-v"}
+	if rp.Race {
+		args = append(args, "-race")
+	}
+	cmd := exec.Command("go", append(args, "./"+spec.Pkg)...)
 	cmd.Dir = "/repo"
 	cmd.Env = append(os.Environ(), "GOFLAGS=-mod=mod", "GOPROXY=off", "GOSUMDB=off", "GOTOOLCHAIN=local", "VRT_REPLAY="+filepath.Join(dir, "replay.json"))
 	if rp.Repeat > 0 {
@@ -471,6 +479,9 @@ func TestVrtReplay(t *testing.T) {
 			res.AssumeFailed = true
 			res.Ran = true
 		case line == "VRT-DONE":
+			res.Ran = true
+		case strings.HasPrefix(line, "WARNING: DATA RACE"):
+			res.Failed = append(res.Failed, "race: data race reported by go test -race")
 			res.Ran = true
 		case strings.HasPrefix(line, "panic:") || strings.HasPrefix(line, "fatal error:"):
 			res.Failed = append(res.Failed, "panic: "+line)
